@@ -25,3 +25,13 @@ package sign
 //@ func (*round2S).Finalize
 //@   requires r != nil && r.round1S != nil && r.Helper != nil
 //@   assert_at[C01] ResultRound "return r.ResultRound(&r.Sig)": typeis(arg1, *ecdsa.Signature) && arg1.(*ecdsa.Signature) == r.Sig
+
+// ---- start functions (C20): no session without complete key material and a non-empty message hash
+//@ func StartSignReceiver$1
+//@   nopanic[C20]
+//@   ensures[C20] result1 != nil ==> result0 == nil
+//@   ensures[C20] result1 == nil ==> (result0 != nil && config != nil && config.Public != nil && config.SecretShare != nil && config.Setup != nil && len(hash) > 0)
+//@ func StartSignSender$1
+//@   nopanic[C20]
+//@   ensures[C20] result1 != nil ==> result0 == nil
+//@   ensures[C20] result1 == nil ==> (result0 != nil && config != nil && config.Public != nil && config.SecretShare != nil && config.Setup != nil && len(hash) > 0)
